@@ -126,4 +126,18 @@ CLAIMED['C06'] = dict(
          'is a paper argument.',
     technique='deductive verification: step contracts under an interference (rely) model + Hoare loop rule + invariant-preservation lemma, CBMC on mechanically lowered real code',
     design='§6 C06, §3.4')
+CLAIMED['C07'] = dict(
+    text='Kernel only (the property quantifies over interleavings): LockfreeRingQueueBase constructor arithmetic, idx/turn/check_full/'
+         'check_empty and the three mark functions, and LockfreeMPMCRingQueue::push / pop are lowered from /repo on every run.  Lemmas over all '
+         '64-bit values (requested capacity <= 2^62): capacity is the smallest power of two >= max(c,2), idx stays inside the ring, check_full '
+         'holds exactly with `capacity` elements in flight, one lap later is the same slot in the next turn, the per-slot mark protocol '
+         'free -> written -> read == free-for-next-lap, two positions sharing a slot differ in turn.  Step contracts (Hoare loop rule on the '
+         'retry loops, under an interference model): push/pop write or read data only in the slot whose position this call claimed by winning '
+         'the CAS on tail/head (which advances by exactly one), publish exactly once with the mark of the claimed position, and a refused '
+         'call claims and writes nothing.',
+    note=TRUST + ' NOT decided: FIFO per producer and exactly-once delivery as whole-history properties, send/recv, the SPSC and batch queues, the '
+         'RingChannel/FlexRingChannel notification protocol (memory-model and schedule facts); sequentially consistent atomics; rely: tail/head only '
+         'grow and a slot is written by another thread only between its own claim and publication.',
+    technique='deductive verification: bit-vector lemmas + step contracts under an interference (rely) model, CBMC on mechanically lowered real code',
+    design='§6 C07, §3.4')
 NA = {}
